@@ -31,6 +31,11 @@ func (pkg *LanguagePackage) ReadFrom(ch BytesChannel) error {
 		return ErrNotEnoughBytes
 	}
 
+	if totalLength == 0 {
+		// The length includes the status byte
+		return fmt.Errorf("invalid length 0 for language package")
+	}
+
 	status, err := ch.Byte()
 	if err != nil {
 		return ErrNotEnoughBytes
